@@ -123,6 +123,53 @@ def judge(results):
     return summary
 
 
+# ----------------------------------------------------------------- patches written by independent sub-agents
+def external_inputs(prop):
+    """(kind, id, patch file): the seeded property-breaking changes of `prop` (must be reported) and every
+    behaviour-preserving refactoring (must stay silent) kept under /verif (DESIGN section 11)"""
+    import glob
+    import json
+    out = []
+    for meta in sorted(glob.glob(os.path.join(HERE, "seeded", "*", "meta.json"))):
+        try:
+            m = json.load(open(meta))
+        except (OSError, ValueError):
+            continue
+        if m.get("property") == prop:
+            out.append(('seed', m.get("id"), os.path.join(os.path.dirname(meta), "patch.diff")))
+    for d in sorted(glob.glob(os.path.join(HERE, "benign", "*", "[0-9]*.diff"))):
+        out.append(('benign', os.path.relpath(d, os.path.join(HERE, "benign")), d))
+    return out
+
+
+def run_external(args):
+    kind, xid, patch, prop, root = args
+    import subprocess
+    sys.path.insert(0, HERE)
+    import vcheck
+    tmp = tempfile.mkdtemp(prefix="vx-")
+    try:
+        shutil.copytree(os.path.join(root, "asynciojobs"), os.path.join(tmp, "asynciojobs"),
+                        ignore=shutil.ignore_patterns("__pycache__"))
+        r = subprocess.run(["patch", "-p1", "-s", "-d", tmp, "-i", patch], capture_output=True, text=True)
+        if r.returncode != 0:
+            return (kind, xid, prop, 'skipped', "patch does not apply to the current tree", [])
+        rc, lines, rep = vcheck.run_property(prop, 'quick', 0, root=tmp, write_evidence=False, quiet=True)
+        fired = sorted({o.rule for o in rep.obls if not o.ok and not o.known})
+        return (kind, xid, prop, rc, "; ".join("%s: %s" % e for e in rep.errors)[:200], fired)
+    finally:
+        shutil.rmtree(tmp, ignore_errors=True)
+
+
+def run_externals(prop, root=None, jobs=16):
+    root = root or os.environ.get("VERIF_REPO", "/repo")
+    tasks = [(k, i, pth, prop, root) for k, i, pth in external_inputs(prop)]
+    if not tasks:
+        return []
+    with concurrent.futures.ProcessPoolExecutor(max_workers=min(jobs, len(tasks))) as ex:
+        return list(ex.map(run_external, tasks))
+
+
 def run_for_property(prop, rep, seed=0):
     """thorough tier: armed-ness of the rules of `prop` on the current tree"""
     if any((not o.ok and not o.known) for o in rep.obls):
@@ -138,6 +185,32 @@ def run_for_property(prop, rep, seed=0):
         rep.error("selftest", f)
     rep.note("self-test: %d variants applied, %d fired, %d benign silent, %d skipped"
              % (s['applied'], s['fired'], s['benign_silent'], s['skipped']))
+    # the changes and refactorings written by independent sub-agents (DESIGN section 11)
+    ext = run_externals(prop)
+    cnt = {'seeds': 0, 'seeds_reported': 0, 'benign': 0, 'benign_silent': 0, 'skipped': 0}
+    for kind, xid, _p, rc, msg, fired in ext:
+        if rc == 'skipped':
+            cnt['skipped'] += 1
+            continue
+        if kind == 'seed':
+            cnt['seeds'] += 1
+            if rc == 1:
+                cnt['seeds_reported'] += 1
+            else:
+                rep.error("selftest", "seeded change %s is not reported as a violation (rc=%s %s)" % (xid, rc, msg))
+        else:
+            cnt['benign'] += 1
+            if rc == 0:
+                cnt['benign_silent'] += 1
+            else:
+                rep.error("selftest", "behaviour-preserving refactoring %s is not silent (rc=%s fired=%s %s)"
+                          % (xid, rc, fired, msg))
+    rep.extra['external_inputs'] = cnt
+    rep.extra['external_results'] = [{'kind': k, 'id': i, 'outcome': rc if rc == 'skipped' else
+                                      {0: 'silent', 1: 'violation', 2: 'inconclusive'}.get(rc), 'rules': f}
+                                     for k, i, _p, rc, _m, f in ext]
+    rep.note("sub-agent inputs: %d/%d seeded changes reported, %d/%d refactorings silent, %d skipped"
+             % (cnt['seeds_reported'], cnt['seeds'], cnt['benign_silent'], cnt['benign'], cnt['skipped']))
 
 
 if __name__ == "__main__":
